@@ -483,9 +483,13 @@ def rstBlock (s : Tcb) (seg : Hdr) : B :=
   | .Established | .FinWait1 | .FinWait2 | .CloseWait => .ok (s, some .ConnectionReset)
   | .Closing | .LastAck | .TimeWait => .ok (s, some .FinalizeClose)
 
-/-- block 4: `if seg.ctl.syn() { match self.state … }` -/
+/-- block 4: `if self.state == SynSent && !seg.ctl.syn() { return DiscardSegment }` followed by
+    `if seg.ctl.syn() { match self.state … }` -/
 def synBlock (s : Tcb) (seg : Hdr) : B :=
-  if !seg.ctl.syn then .ok (s, none) else
+  if !seg.ctl.syn then
+    -- 3.10.7.3, fifth: neither SYN nor RST is set: drop the segment
+    if s.state = .SynSent then .ok (s, some .DiscardSegment) else .ok (s, none)
+  else
   match s.state with
   | .SynSent =>
     let s := { s with rcv.irs := seg.seq, rcv.nxt := seg.seq + 1, snd.wnd := seg.wnd,
